@@ -148,8 +148,9 @@ CHECKS["C07"] = (
     "failed; then no entity event, commit action or tx-complete listener ran and the stored state equals the pre-state; otherwise the state is the model's. "
     "Second harness: a manager (parent + child data) referenced by a team through a restricting fk index on the CHILD store: the delete, through either store, "
     "is refused iff referenced, reaches the caller, changes nothing and fires no event. Storage errors: (i) a unique name / nick of 32768 vs 32769 bytes "
-    "(bbolt's key limit) arriving by create or update after an earlier successful create in the same transaction; (ii) from a fixed population, each of 13 store "
-    "operations (create / update / delete through parent and child store, patch, AddLinks / SetLinks / RemoveLinks, Increment / Decrement / SetLinkCount) with the "
+    "(bbolt's key limit) arriving by create or update after an earlier successful create in the same transaction; (ii) from a fixed population, each of 14 "
+    "operations (create / update / delete through parent and child store, patch, AddLinks / SetLinks / RemoveLinks, Increment / Decrement / SetLinkCount, "
+    "CheckIntegrity in fix mode with repair work to do) with the "
     "k-th Bucket.Put of the transaction failing, k symbolic in 1..14 (quick) / 1..30 (thorough): if the fault was delivered the operation and the transaction "
     "return an error, the database is as before and no event fires. The first pre-commit action is registered inside the body or on the context before the "
     "transaction (Db.Batch re-runs a failing body on its own, modelled as such); the operations run directly or inside a nested Db.Update / Db.Batch on the same context.",
